@@ -172,6 +172,12 @@ func hardReset(cn net.Conn) {
 
 // c08OneCell runs one connection through one matrix cell and judges it.
 func c08OneCell(c *Ctx, wd *c08World, srv *Srv, cell c08Cell, stopper func()) {
+	t00 := time.Now()
+	defer func() {
+		if d := time.Since(t00); d > 5*time.Second {
+			c.Logf("slow cell %v: %s", cell, d)
+		}
+	}()
 	det := map[string]any{"cell": cell}
 	tag := fmt.Sprintf("t%d", c08TagCtr.Add(1))
 	cn, err := c08Connect(wd, srv.Addr, cell.Transport)
@@ -308,13 +314,13 @@ func c08OneCell(c *Ctx, wd *c08World, srv *Srv, cell c08Cell, stopper func()) {
 	if just {
 		// the request goroutines were possibly not even scheduled when the connection ended: give them time to show up
 		wait := patience
-		if cell.Ending == "rst" {
-			wait = time.Second // a reset may discard frames the server has not read yet: they never show up
+		if cell.Ending == "rst" || cell.Ending == "stop" {
+			wait = time.Second // a reset (or a Stop) may come before the server has read the frames: they never show up
 		}
 		for dl := time.Now().Add(wait); t.entered.Load() < int64(1+k) && time.Now().Before(dl); {
 			time.Sleep(200 * time.Microsecond)
 		}
-		if cell.Ending == "rst" && t.entered.Load() < int64(1+k) {
+		if (cell.Ending == "rst" || cell.Ending == "stop") && t.entered.Load() < int64(1+k) {
 			k = int(t.entered.Load()) - 1 // the reset may have discarded unread frames
 		}
 		time.Sleep(80 * time.Millisecond) // slow handlers (60ms) finish
